@@ -5,6 +5,7 @@
    any sequence of calls of the translated code behaves like the abstract seed model. *)
 From Coq Require Import String.
 From PS Require Import Base GFDefs PackDefs StoreDefs MiscDefs StrDefs LangDefs ApiDefs SpecDefs SpecApi.
+From PS Require Import HeldProofs.
 From PS Require Import GFProofs MiscProofs PackProofs PackTheorems StoreProofs SeedProofs ApiLemmas RefineProofs ApiTheorems TraceProofs FrameProofs SafetyProofs.
 From PS Require Import CTieBase CTieLang CTiePhrase CTieFeat CTieStore CTieSplit CTieApi CTieDecode CTieEncode CTieInject.
 From PS.Gen Require Import Consts PrivConsts Langs.
@@ -522,5 +523,23 @@ Section Machine.
   Proof.
     intros HR Ho Hr. pose proof (SafetyProofs.status_range sgn cs a o HR Ho) as S. rewrite (cstep_ok cs o Hr).
     destruct o; exact S || exact I.
+  Qed.
+  (* what a call on a held seed does - as the TRANSLATED code does it - does not depend on the feature set enabled
+     when the call is made (HeldProofs: the same for the mirror); only the four constructors read that set *)
+  Lemma op_ready_reserved st r o : uses_held o = true -> op_ready st o -> op_ready (with_reserved r st) o.
+  Proof.
+    intros Hu. destruct o; try discriminate Hu; cbn [op_ready]; unfold live_valid, with_reserved;
+      cbn [st_heap st_deps]; try (intros H; exact H).
+    intros (H1 & H2 & H3 & H4 & H5 & H6). repeat split; try assumption.
+    change (mkstate (st_deps st) r (st_heap st) (st_next st)) with (with_reserved r st).
+    rewrite (held_independent sgn langs st r (OpEncode h li coin) eq_refl). cbn [fst snd]. exact H6.
+  Qed.
+
+  Theorem code_held_independent st r o : uses_held o = true -> op_ready st o ->
+    cstep (with_reserved r st) o =
+    (with_reserved r (fst (fst (cstep st o))), snd (fst (cstep st o)), snd (cstep st o)).
+  Proof.
+    intros Hu Hr. rewrite (cstep_ok st o Hr), (cstep_ok _ o (op_ready_reserved st r o Hu Hr)).
+    apply held_independent; exact Hu.
   Qed.
 End Machine.
